@@ -167,6 +167,9 @@ type c3memo struct {
 func c3judge(r *mc.Recorder, memo *c3memo, key, cas string, tags []string, x poly.Sequence) {
 	fail := func(clause, exp, got string) { r.Failf(clause, cas, tags, exp, got) }
 	var out []byte
+	// the record as given: what is read back is compared with this copy, so a writer that reorders or edits the
+	// caller's features, references or maps in place cannot hide the change from the comparison
+	given := c3copy(x)
 	vmap.Enabled = true
 	p := catch(func() { out = genbank.Build(x) })
 	vmap.Enabled = false
@@ -194,8 +197,42 @@ func c3judge(r *mc.Recorder, memo *c3memo, key, cas string, tags []string, x pol
 		fail("no-panic", "a record", "panic in Parse(Build(x)): "+p)
 		return
 	}
-	c3same(x, back, fail)
-	c3layout(x, text, fail, func() { r.Skip(1) })
+	c3same(given, back, fail)
+	c3layout(given, text, fail, func() { r.Skip(1) })
+}
+
+func c3copyLoc(l poly.Location) poly.Location {
+	c := l
+	c.SubLocations = nil
+	for _, s := range l.SubLocations {
+		c.SubLocations = append(c.SubLocations, c3copyLoc(s))
+	}
+	return c
+}
+
+// c3copy copies everything the comparison reads: feature list, qualifier maps, locations, references, other blocks.
+func c3copy(x poly.Sequence) poly.Sequence {
+	c := x
+	c.Features = nil
+	for _, f := range x.Features {
+		g := f
+		g.SequenceLocation = c3copyLoc(f.SequenceLocation)
+		if f.Attributes != nil {
+			g.Attributes = map[string]string{}
+			for k, v := range f.Attributes {
+				g.Attributes[k] = v
+			}
+		}
+		c.Features = append(c.Features, g)
+	}
+	c.Meta.References = append([]poly.Reference(nil), x.Meta.References...)
+	if x.Meta.Other != nil {
+		c.Meta.Other = map[string]string{}
+		for k, v := range x.Meta.Other {
+			c.Meta.Other[k] = v
+		}
+	}
+	return c
 }
 
 func c3firstDiff(a, b string) string {
@@ -217,6 +254,20 @@ func c3text(n int) string {
 	}
 	s = s[:n]
 	return strings.TrimSpace(s)
+}
+
+var c3keywords = []string{"LOCUS", "control", "DEFINITION", "of", "ACCESSION", "VERSION", "KEYWORDS", "SOURCE", "ORGANISM", "REFERENCE", "AUTHORS",
+	"TITLE", "JOURNAL", "PUBMED", "REMARK", "COMMENT", "DBLINK", "region", "FEATURES", "site"}
+
+// c3keywordText is free text of about n characters over the vocabulary above, starting at word k.
+func c3keywordText(k, n int) string {
+	var b []string
+	for l := 0; l < n; k++ {
+		w := c3keywords[k%len(c3keywords)]
+		b = append(b, w)
+		l += len(w) + 1
+	}
+	return strings.Join(b, " ")
 }
 
 // c3structured draws a programmatically assembled record.
@@ -271,10 +322,27 @@ func c3structured(c *mc.Ctx, thorough bool, tags *[]string) poly.Sequence {
 	if nother == 3 {
 		tag("metadata-wraps")
 	}
+	if c.Dev("metadata-words", 2) == 1 {
+		// free text made of the format's own keywords: wrapped continuation lines then begin with LOCUS,
+		// DEFINITION, SOURCE, REFERENCE ... and must still be read as continuation text
+		s.Meta.Definition = c3keywordText(0, 260)
+		s.Meta.Other["COMMENT"] = c3keywordText(5, 200)
+		tag("metadata-wraps")
+		tag("keywords-in-text")
+	}
 	nf := []int{1, 0, 2, 3}[c.Dev("features", 4)]
+	// the feature table is kept in the order given, whatever the coordinates: ascending starts by default,
+	// descending starts as a deviation (a writer or reader that orders the table would permute it)
+	descending := c.Dev("feature-starts", 2) == 1
+	if descending && nf >= 2 {
+		tag("features-not-in-start-order")
+	}
 	for i := 0; i < nf; i++ {
 		f := poly.Feature{Type: []string{"gene", "CDS", "misc_feature"}[i], Attributes: map[string]string{}}
 		a := 1 + i%L
+		if descending {
+			a = 1 + (4*(nf-1-i))%L
+		}
 		b := a + (7*(i+1))%L
 		if b > L {
 			b = L
@@ -373,7 +441,7 @@ func c03units(tier string) []mc.Unit {
 			r.Evaluations, r.Traces = cnt, cnt
 			r.AddStates(recs)
 			r.AddNontrivial(cnt)
-			r.Bound("structured", fmt.Sprintf("assembled records with at most %d deviations (sequence length, topology, metadata length 100/2000, 0/1/2/5 references with/without REMARK, 0..3 extra keyword blocks, 0..3 features x 7 location shapes x cached text x 0/1/2/3/8 qualifiers) x EVERY iteration order of every map ranged over inside Build (all n! orders for n<=4, rotations and reversals beyond)", dev))
+			r.Bound("structured", fmt.Sprintf("assembled records with at most %d deviations (sequence length, topology, metadata length 100/2000, 0/1/2/5 references with/without REMARK, 0..3 extra keyword blocks, free text made of the format's own keywords, 0..3 features in ascending or descending start order x 7 location shapes x cached text x 0/1/2/3/8 qualifiers) x EVERY iteration order of every map ranged over inside Build (all n! orders for n<=4, rotations and reversals beyond)", dev))
 		}})
 	}
 	// (i) records in the image of the parser over generated files
